@@ -5,12 +5,19 @@ package main
 // untouched), the same tree desugared a second time, and the result desugared again.
 
 import (
+	"fmt"
+
+	"github.com/goghcrow/yae"
 	"github.com/goghcrow/yae/parser"
 	"github.com/goghcrow/yae/parser/ast"
 	"github.com/goghcrow/yae/parser/lexer"
 	"github.com/goghcrow/yae/parser/oper"
 	"github.com/goghcrow/yae/trans"
+	"github.com/goghcrow/yae/types"
+	"github.com/goghcrow/yae/val"
 )
+
+type astExpr = ast.Expr
 
 func init() {
 	families["desugar"] = &Family{Run: runDesugar}
@@ -39,5 +46,71 @@ func runDesugar(c J) J {
 	})
 	obs["class"] = cl
 	obs["msg"] = msg
+	if str(c["opsid"]) == "builtin" {
+		obs["reuse"] = reuseTree(src)
+	}
 	return obs
+}
+
+// reuseTree: ONE parsed tree compiled for three environments in a row (x a list, a number, a string) must behave,
+// each time, like a freshly parsed tree compiled for that environment: desugaring and checking leave the parsed
+// tree as it was.  Returns the list of environments for which it did not.
+func reuseTree(src string) A {
+	type envT struct {
+		name string
+		ty   *types.Type
+		v    *val.Val
+	}
+	lst := val.List(types.List(types.Num).List(), 0)
+	lst.List().V = []*val.Val{val.Num(1), val.Num(2)}
+	envs := []envT{{"list", types.List(types.Num), lst}, {"num", types.Num, val.Num(3)}, {"str", types.Str, val.Str("ab")}}
+	run := func(ex *yae.Expr, tree func() interface{}, e envT) string {
+		out := "?"
+		func() {
+			defer func() {
+				if r := recover(); r != nil {
+					out = "reject"
+				}
+			}()
+			te := types.NewEnv()
+			te.Put("x", e.ty)
+			clo := ex.CompileExpr(tree().(astExpr), te)
+			ve := val.NewEnv()
+			ve.Put("x", e.v)
+			func() {
+				defer func() {
+					if r := recover(); r != nil {
+						out = "fail"
+					}
+				}()
+				v := clo(ve.Inherit(val.NewEnv()))
+				out = "value " + fmt.Sprint(v)
+			}()
+		}()
+		return out
+	}
+	bad := A{}
+	var shared astExpr
+	ok := true
+	func() {
+		defer func() {
+			if r := recover(); r != nil {
+				ok = false
+			}
+		}()
+		shared = yae.NewExpr().Parse(src)
+	}()
+	if !ok {
+		return bad
+	}
+	exShared := yae.NewExpr()
+	for _, e := range envs {
+		got := run(exShared, func() interface{} { return shared }, e)
+		fresh := yae.NewExpr()
+		want := run(fresh, func() interface{} { return fresh.Parse(src) }, e)
+		if got != want {
+			bad = append(bad, J{"env": e.name, "reused": clip(got, 80), "fresh": clip(want, 80)})
+		}
+	}
+	return bad
 }
